@@ -26,15 +26,43 @@ package wkb
 //@ pred wfLineEnc(s int, b int) = wfHdr(s, b, 2) && ptsTokAt(s, b + 2, tokU(ghostAtO(s, "tok", b)))
 //@ pred wfPolyEnc(s int, b int) = wfHdr(s, b, 3) && tokKind(ghostAtO(s, "tok", b + 2)) == 2 && tokOrder(ghostAtO(s, "tok", b + 2)) == tokU(ghostAtO(s, "tok", b)) && 0 <= tokU(ghostAtO(s, "tok", b + 2)) && tokU(ghostAtO(s, "tok", b + 2)) <= 4294967295 && (forall k int :: 0 <= k && k < tokU(ghostAtO(s, "tok", b + 2)) ==> ptsTokAt(s, b + 3 + 2 * k, tokU(ghostAtO(s, "tok", b))))
 
+// Read: the header part of the body is verified — the flag is read as one byte, 0 selects big endian
+// and 1 little endian, the type code is read in THAT order, and the reader looked up for that code is
+// called with the same reader and order (assert [dispatch_after_the_header]); the call goes through a
+// function value of type wkbReader (functype contract below), so WHICH function is registered for a
+// code is not visible here: the three read-back clauses rest on the registry built by init
+// (ensures_assumed). registryOK: no registered reader is nil (package state set up by init and
+// written nowhere else).
+//@ pred hdrTok(s int, b int) = tokKind(ghostAtO(s, "tok", b)) == 1 && (tokU(ghostAtO(s, "tok", b)) == 0 || tokU(ghostAtO(s, "tok", b)) == 1) && tokKind(ghostAtO(s, "tok", b + 1)) == 2 && tokOrder(ghostAtO(s, "tok", b + 1)) == tokU(ghostAtO(s, "tok", b))
+// registryOK is kept abstract where it is only passed along (a quantified fact in every reader's context
+// disturbed unrelated proofs); its meaning is the axiom below, used at the one place that needs it.
+//@ spec registryOK() bool
+//@ axiom registry_nonnil(k uint32)
+//@   trusted definition of registryOK: every registered reader is a non-nil function value
+//@   requires registryOK() && mapHas(wkbReaders, k)
+//@   ensures wkbReaders[k] != nil
+
+//@ functype wkbReader
+//@   mode ufloat
+//@   opt writes=geom.Point,geom.Path,geom.LineString,geom.Polygon,geom.Geom,uint32,float64,alloc
+//@   requires [nonnil] self != nil
+//@   requires [reader] typeof(arg0) != nil && typeof(arg1) != nil
+//@   requires [registry] registryOK()
+//@   modifies ghost(arg0, "pos")
+
 //@ func Read
 //@   prop C07, C05
 //@   mode ufloat
-//@   trusted dispatch through the package-level registry of reader functions (dynamic calls through a global map): reads the byte-order flag and the type code in that order and hands over to the reader registered for the code (pointReader, lineStringReader, polygonReader, ... as registered in init)
 //@   opt writes=geom.Point,geom.Path,geom.LineString,geom.Polygon,geom.Geom,uint32,float64,alloc
+//@   opt callwrites=declared
 //@   requires [reader] typeof(r) != nil
-//@   ensures [reads_back_point] old(ghost(r, "pos")) >= 0 && old(ghost(r, "pos")) + 2 < ghost(r, "n") && old(wfPointEnc(objOf(r), ghost(r, "pos"))) ==> result1 == nil && typeof(result0) == geom.Point && tokSamePt(result0.(geom.Point), tokPt(ghostAt(r, "tok", old(ghost(r, "pos")) + 2))) && ghost(r, "pos") == old(ghost(r, "pos")) + 3
-//@   ensures [reads_back_linestring] old(ghost(r, "pos")) >= 0 && old(ghost(r, "pos")) + 3 < ghost(r, "n") && old(wfLineEnc(objOf(r), ghost(r, "pos"))) ==> result1 == nil && typeof(result0) == geom.LineString && runAt(objOf(r), old(ghost(r, "pos")) + 3, old(tokU(ghostAt(r, "tok", ghost(r, "pos")))), result0.(geom.LineString)) && ghost(r, "pos") == old(ghost(r, "pos")) + 4
-//@   ensures [reads_back_polygon] old(ghost(r, "pos")) >= 0 && old(wfPolyEnc(objOf(r), ghost(r, "pos"))) && old(ghost(r, "pos") + 2 + 2 * tokU(ghostAt(r, "tok", ghost(r, "pos") + 2)) < ghost(r, "n")) ==> result1 == nil && typeof(result0) == geom.Polygon && len(result0.(geom.Polygon)) == old(tokU(ghostAt(r, "tok", ghost(r, "pos") + 2))) && (forall k int :: 0 <= k && k < len(result0.(geom.Polygon)) ==> runAt(objOf(r), old(ghost(r, "pos")) + 4 + 2 * k, old(tokU(ghostAt(r, "tok", ghost(r, "pos")))), result0.(geom.Polygon)[k])) && ghost(r, "pos") == old(ghost(r, "pos")) + 3 + 2 * len(result0.(geom.Polygon))
+//@   requires [registry] registryOK()
+//@   ensures_assumed [reads_back_point] old(ghost(r, "pos")) >= 0 && old(ghost(r, "pos")) + 2 < ghost(r, "n") && old(wfPointEnc(objOf(r), ghost(r, "pos"))) ==> result1 == nil && typeof(result0) == geom.Point && tokSamePt(result0.(geom.Point), tokPt(ghostAt(r, "tok", old(ghost(r, "pos")) + 2))) && ghost(r, "pos") == old(ghost(r, "pos")) + 3
+//@   ensures_assumed [reads_back_linestring] old(ghost(r, "pos")) >= 0 && old(ghost(r, "pos")) + 3 < ghost(r, "n") && old(wfLineEnc(objOf(r), ghost(r, "pos"))) ==> result1 == nil && typeof(result0) == geom.LineString && runAt(objOf(r), old(ghost(r, "pos")) + 3, old(tokU(ghostAt(r, "tok", ghost(r, "pos")))), result0.(geom.LineString)) && ghost(r, "pos") == old(ghost(r, "pos")) + 4
+//@   ensures_assumed [reads_back_polygon] old(ghost(r, "pos")) >= 0 && old(wfPolyEnc(objOf(r), ghost(r, "pos"))) && old(ghost(r, "pos") + 2 + 2 * tokU(ghostAt(r, "tok", ghost(r, "pos") + 2)) < ghost(r, "n")) ==> result1 == nil && typeof(result0) == geom.Polygon && len(result0.(geom.Polygon)) == old(tokU(ghostAt(r, "tok", ghost(r, "pos") + 2))) && (forall k int :: 0 <= k && k < len(result0.(geom.Polygon)) ==> runAt(objOf(r), old(ghost(r, "pos")) + 4 + 2 * k, old(tokU(ghostAt(r, "tok", ghost(r, "pos")))), result0.(geom.Polygon)[k])) && ghost(r, "pos") == old(ghost(r, "pos")) + 3 + 2 * len(result0.(geom.Polygon))
+//@   assert [registered_reader_is_not_nil] `return reader(r, byteOrder)` reader != nil
+//@     using registry_nonnil(wkbGeometryType)
+//@   assert [dispatch_after_the_header] `return reader(r, byteOrder)` old(ghost(r, "pos")) >= 0 && old(ghost(r, "pos")) + 1 < ghost(r, "n") && old(hdrTok(objOf(r), ghost(r, "pos"))) ==> ghost(r, "pos") == old(ghost(r, "pos")) + 2 && orderCode(byteOrder) == old(tokU(ghostAt(r, "tok", ghost(r, "pos")))) && wkbGeometryType == old(tokU(ghostAt(r, "tok", ghost(r, "pos") + 1)))
 //@   modifies ghost(r, "pos")
 
 //@ func pointReader
@@ -73,6 +101,7 @@ package wkb
 //@ func multiPointReader
 //@   prop C07, C05
 //@   mode ufloat
+//@   requires [registry] registryOK()
 //@   requires [reader] typeof(r) != nil && typeof(byteOrder) != nil
 //@   ensures [geometry_or_error] result1 == nil ==> typeof(result0) == geom.MultiPoint
 //@   ensures [reads_back] old(ghost(r, "pos")) >= 0 && old(wfMPointBody(objOf(r), ghost(r, "pos"), orderCode(byteOrder))) && old(ghost(r, "pos") + 3 * tokU(ghostAt(r, "tok", ghost(r, "pos"))) < ghost(r, "n")) ==> result1 == nil && typeof(result0) == geom.MultiPoint && len(result0.(geom.MultiPoint)) == old(tokU(ghostAt(r, "tok", ghost(r, "pos")))) && (forall k int :: 0 <= k && k < len(result0.(geom.MultiPoint)) ==> tokSamePt(result0.(geom.MultiPoint)[k], tokPt(ghostAt(r, "tok", old(ghost(r, "pos")) + 1 + 3 * k + 2)))) && ghost(r, "pos") == old(ghost(r, "pos")) + 1 + 3 * len(result0.(geom.MultiPoint))
@@ -87,6 +116,7 @@ package wkb
 //@ func multiLineStringReader
 //@   prop C07, C05
 //@   mode ufloat
+//@   requires [registry] registryOK()
 //@   requires [reader] typeof(r) != nil && typeof(byteOrder) != nil
 //@   ensures [geometry_or_error] result1 == nil ==> typeof(result0) == geom.MultiLineString
 //@   ensures [reads_back] old(ghost(r, "pos")) >= 0 && old(wfMLineBody(objOf(r), ghost(r, "pos"), orderCode(byteOrder))) && old(ghost(r, "pos") + 4 * tokU(ghostAt(r, "tok", ghost(r, "pos"))) < ghost(r, "n")) ==> result1 == nil && typeof(result0) == geom.MultiLineString && len(result0.(geom.MultiLineString)) == old(tokU(ghostAt(r, "tok", ghost(r, "pos")))) && (forall k int :: 0 <= k && k < len(result0.(geom.MultiLineString)) ==> runAt(objOf(r), old(ghost(r, "pos")) + 1 + 4 * k + 3, tokU(ghostAt(r, "tok", old(ghost(r, "pos")) + 1 + 4 * k)), result0.(geom.MultiLineString)[k])) && ghost(r, "pos") == old(ghost(r, "pos")) + 1 + 4 * len(result0.(geom.MultiLineString))
@@ -109,6 +139,7 @@ package wkb
 //@ func multiPolygonReader
 //@   prop C07, C05
 //@   mode ufloat
+//@   requires [registry] registryOK()
 //@   requires [reader] typeof(r) != nil && typeof(byteOrder) != nil
 //@   ensures [geometry_or_error] result1 == nil ==> typeof(result0) == geom.MultiPolygon
 //@   ensures [reads_back] old(ghost(r, "pos")) >= 0 && old(wfMPolyBody(objOf(r), ghost(r, "pos"), orderCode(byteOrder))) && old(ghost(r, "pos") + mpTokOff(objOf(r), ghost(r, "pos"), tokU(ghostAt(r, "tok", ghost(r, "pos")))) < ghost(r, "n")) ==> result1 == nil && typeof(result0) == geom.MultiPolygon && len(result0.(geom.MultiPolygon)) == old(tokU(ghostAt(r, "tok", ghost(r, "pos")))) && (forall k int :: {mpTokOff(objOf(r), old(ghost(r, "pos")), k)} 0 <= k && k < len(result0.(geom.MultiPolygon)) ==> len(result0.(geom.MultiPolygon)[k]) == tokU(ghostAt(r, "tok", old(ghost(r, "pos")) + 1 + mpTokOff(objOf(r), old(ghost(r, "pos")), k) + 2)) && (forall j int :: 0 <= j && j < len(result0.(geom.MultiPolygon)[k]) ==> runAt(objOf(r), old(ghost(r, "pos")) + 1 + mpTokOff(objOf(r), old(ghost(r, "pos")), k) + 4 + 2 * j, tokU(ghostAt(r, "tok", old(ghost(r, "pos")) + 1 + mpTokOff(objOf(r), old(ghost(r, "pos")), k))), result0.(geom.MultiPolygon)[k][j]))) && ghost(r, "pos") == old(ghost(r, "pos")) + 1 + mpTokOff(objOf(r), old(ghost(r, "pos")), len(result0.(geom.MultiPolygon)))
@@ -124,6 +155,7 @@ package wkb
 //@ func geometryCollectionReader
 //@   prop C07
 //@   requires [reader] typeof(r) != nil && typeof(byteOrder) != nil
+//@   requires [registry] registryOK()
 //@   modifies ghost(r, "pos")
 //@   ensures [geometry_or_error] result1 == nil ==> typeof(result0) == geom.GeometryCollection
 //@   loop 1 `for i := uint32(0); i < numGeometries; i++`
@@ -312,6 +344,7 @@ package wkb
 //@ func Decode
 //@   prop C05, C07
 //@   mode ufloat
+//@   requires [registry] registryOK()
 //@   ensures_assumed [function_of_the_bytes] result0 == wkbDecG(bytesId(buf)) && result1 == wkbDecE(bytesId(buf))
 //@   modifies nothing
 
